@@ -570,7 +570,7 @@ def minimise(cfg, case, sig, col, budget=400):
         runs[0] += 1
         try:
             _, fs, _, _ = evaluate(cfg, c)
-        except (HarnessError, AssertionError):
+        except Exception:      # a candidate that cannot be evaluated is not a reduction
             return False
         return any((f["clause"], f["key"]) == sig for f in quiet_unknown(col, fs))
 
